@@ -26,7 +26,15 @@ type TextCase struct {
 
 // codecVerdicts compares Valid, Compact, Indent, Unmarshal (fork) and the
 // standard library's Valid with the recogniser. Returns "" when all agree.
-func codecVerdicts(b []byte, want bool) string {
+func codecVerdicts(b []byte, want bool) (msg string) {
+	// a panic of the codec is reported like any other disagreement (the enumerations call this directly)
+	if pn := ev.Safe(func() { msg = codecVerdicts0(b, want) }); pn != nil {
+		return pn.Error()
+	}
+	return msg
+}
+
+func codecVerdicts0(b []byte, want bool) string {
 	if got := stdjson.Valid(b); got != want {
 		return fmt.Sprintf("HARNESS: the standard library's Valid = %v but the recogniser says %v", got, want)
 	}
